@@ -140,7 +140,11 @@ func c02Run(c *fw.Ctx) {
 	r := c.R
 	st := time.Now()
 	gs := compileXCandidates(c, n, n*40, func(i int) *gram.XGrammar {
-		return gram.RandXGrammar(r, gram.XGenOptions{FixWS: i%2 == 0})
+		xg := gram.RandXGrammar(r, gram.XGenOptions{FixWS: i%2 == 0})
+		optv := r.Intn(8)
+		xg.Opts = tableOpts(optv)
+		c.Count(fmt.Sprintf("generated_with_optvec_%d", optv), 1)
+		return xg
 	})
 	stage(&st, "compile")
 	if len(gs) == 0 {
